@@ -1,24 +1,40 @@
 (* C13 — Dump decompiles to an equivalent, re-compilable expression.
-   Only statements; proofs in Proofs/PrefixProofs.v, PrintProofs.v, SourceProofs.v, LexProofs.v, DumpProofs.v, OptSound.v.
+   Only statements; proofs in Proofs/DumpStruct.v, DumpText.v, PrefixProofs.v, PrintProofs.v, SourceProofs.v,
+   LexProofs.v, DumpProofs.v, OptSound.v.
 
-   PARTIAL. Proved, for every tree t the compiler can hold (`twf`: literals the lexer can produce — int64 integers,
-   strings, booleans, non-empty integer lists, string lists —, variables registered under their names, operators
-   of the configuration) and every configuration:
-     (1) the text that prints t's tokens — operator heads, variables by name, literals, lists — in ANY white-space
-         layout goes through lexer, parser.check and the prefix parser and yields t with its fast marks cleared
-         (`strip t`): it compiles under the same names to the same expression;
-     (2) strconv.ParseInt inverts the integer printer on all of int64; string literals are taken verbatim
-         (C14_lex_render: spaces, parentheses, semicolons, backslashes, line breaks, non-ASCII are content);
+   Proved, for EVERY tree t and every configuration:
+     (0) `dump (compile t)` — the model of util.go Dump run on the compiled program: children found through the
+         parent-index table, the `fi` marker of an `if` skipped — is the structural printing `show t`;
+     (1) for every t the compiler can hold (`twf`: int64 integers, strings, booleans, non-empty integer lists, string
+         lists; variables registered under their names; operators of the configuration) whose names are identifiers
+         and whose strings contain no double quote (`lexable`: the lexer has no escapes, so these are exactly the
+         literals the lexer can produce), that text goes through lexer, parser.check and the prefix parser and
+         yields t with its fast marks cleared (`strip t`): Dump's output compiles under the same names;
+     (2) strconv.ParseInt inverts the integer printer on all of int64; string literals are verbatim (C14_lex_render:
+         spaces, parentheses, semicolons, backslashes, line breaks, non-ASCII are content);
      (3) the recompiled program — under any optimisation subset — returns the value the original returned whenever
-         both return one (on expressions whose and/or operands are boolean), and is the very same tree when the
+         both return one (on expressions whose and/or operands are boolean); it is the very same tree when the
          original carries no fast marks (all effects and errors equal);
-     (4) reading back is idempotent: the recompiled unoptimised tree prints and reads back as itself.
-   NOT proved: that Dump's reconstruction from the parent-index table (`Print.dump`, the model of util.go Dump)
-   prints exactly those tokens for every compiled program, with or without event nodes. That step is tied on every
-   run: the model `dump` is compared with Go's Dump on Go's own exported program, and Go's Compile(Dump(e)),
-   its results on bindings and the second Dump are compared directly. *)
-Require Import Base Opcode Tables Ops Tree Opt Flat Run Directives Lexer Parser Print LexProofs PrefixProofs PrintProofs SourceProofs OptSound DumpProofs.
+     (4) dumping the recompiled unoptimised program reproduces the text exactly.
+   PARTIAL: not proved — the same for the program WITH event nodes (ReportEvent/Debug): `dump (eventize P) = dump P`
+   is checked per case (model dump vs Go's Dump on Go's event-mode program, and Go's Dump with vs without events);
+   and "same result on every binding" beyond "whenever both return a value" (a fast and/or operator evaluates both
+   leaves, so an erroring second operand behind a deciding first one is an error before and a value after). *)
+Require Import Base Opcode Tables Ops Tree Opt Flat Run Directives Lexer Parser Print LexProofs PrefixProofs PrintProofs SourceProofs OptSound DumpProofs DumpStruct DumpText.
 Open Scope Z_scope.
+
+(* (0) Dump of a compiled program is the structural printing of its tree *)
+Theorem C13_dump_is_show : forall t, dump (compile t) = Some (fst (show t 0)).
+Proof. exact dump_compile. Qed.
+
+(* (1) Dump's text compiles, under the same names, to the same expression *)
+Theorem C13_dump_roundtrip : forall c t, twf c t -> lexable t -> is_leaf t = false ->
+  match dump (compile t) with Some s => parse_source c false s | None => None end = Some (strip t).
+Proof. exact dump_roundtrip. Qed.
+
+(* (4) the second Dump reproduces the text exactly *)
+Theorem C13_second_dump_text : forall t, dump (compile (strip t)) = dump (compile t).
+Proof. exact second_dump. Qed.
 
 (* (1) from text: any layout of the printed tokens reads back as the tree *)
 Theorem C13_reparse : forall c items t,
@@ -46,9 +62,8 @@ Theorem C13_second_dump : forall c t, twf c (strip t) ->
   parse_prefix c false (ttoks show_Z (strip t)) = Some (strip t).
 Proof. intros c t H. rewrite (parse_prefix_correct c show_Z parse_show_Z _ H). rewrite strip_idem. reflexivity. Qed.
 
-(* the unproved step, kept visible: Dump of the compiled program prints t's tokens in some layout *)
-Definition C13_dump_statement : Prop :=
-  forall t, is_leaf t = false -> exists items, dump (compile t) = Some (render items) /\ map fst items = ttoks show_Z t.
+(* the unproved step, kept visible: event nodes are invisible to Dump *)
+Definition C13_dump_events_statement : Prop := forall t, dump (eventize (compile t)) = dump (compile t).
 
 (* non-vacuity: a program with a string full of delimiters, a list, a fast operator; its Dump in the model; the
    round trip through the whole front end *)
@@ -60,11 +75,20 @@ Definition ex : tree :=
      TIf (TOp (ss "in") false [TVar (ss "b.c") 2; TConst (VIntL [1; -2; 3])]) (TOp (ss "f") false []) (TConst (VBool false))].
 Example C13_ex_wf : twf c0 ex /\ is_leaf ex = false.
 Proof. cbn [twf ex vwf c0]. repeat split; try reflexivity; [discriminate|repeat constructor]. Qed.
+Example C13_ex_lexable : lexable ex.
+Proof.
+  cbn [lexable ex vlex]. repeat split;
+    try (eexists _, _; split; [reflexivity|]; repeat split; try reflexivity; try discriminate; repeat constructor; fail).
+  - intros H. vm_compute in H. repeat (destruct H as [H|H]; [discriminate|]). exact H.
+  - repeat constructor.
+Qed.
 Example C13_ex_dump : option_map (parse_source c0 false) (dump (compile ex)) = Some (Some (strip ex)).
 Proof. vm_compute. reflexivity. Qed.
 Example C13_ex_dump_events : dump (eventize (compile ex)) = dump (compile ex).
 Proof. vm_compute. reflexivity. Qed.
 
+Print Assumptions C13_dump_is_show.
+Print Assumptions C13_dump_roundtrip.
 Print Assumptions C13_reparse.
 Print Assumptions C13_same_value.
 Print Assumptions C13_second_dump.
